@@ -331,7 +331,7 @@ int run_case(const uint8_t *data, size_t size) {
         DTWSettings sc = *s;
         sc.max_dist = 0; sc.max_step = 0; sc.use_pruning = false; sc.inner_dist = 0;
         seq_t tau = 0.36, delta = -0.36, delta_factor = 0.9, gamma = 1.0;
-        int triu = (k.a & 1) && l1 == l2;
+        int triu = (k.a & 1);   /* also for unequal lengths */
         if (nd == 1) dtw_warping_paths_affinity(wps, s1, l1, s2, l2, true, true, k.psi_neg, triu,
                                                 gamma, tau, delta, delta_factor, &sc);
         else dtw_warping_paths_affinity_ndim(wps, s1, l1, s2, l2, true, true, k.psi_neg, triu, nd,
